@@ -32,3 +32,7 @@ def div(a, b):
 
 def mod(a, b):
     return a % b
+
+
+def each(gen):
+    return list(gen)
